@@ -174,6 +174,9 @@ def _gen_saddle(rng, solver):
         # optional infimal-convolution terms l_i of douglas_rachford_pd: a
         # Huber term is passed as g_i = lam |.|_1, l_i = lam/(2 gamma) |.|^2
         cfg['use_l'] = True
+    if solver in ('proximal_gradient', 'accelerated_proximal_gradient',
+                  'forward_backward') and rng.random() < 0.4:
+        cfg['h_comp'] = True
     return cfg
 
 
@@ -278,6 +281,14 @@ class Saddle(object):
             if 'h' not in cfg:
                 cfg['h'] = P.gen_func(frng, kkt.KKT_SMOOTH)
             self.h = P.build_func(cfg['h'], self.X)
+            if cfg.get('h_comp'):
+                # the smooth term as a composition `h * Id` (same values,
+                # gradient and Lipschitz constant, so the models stand), and
+                # the objective looked at on the iterate object before each
+                # solver call (seed e12: whatever a composition remembers
+                # from an evaluation is stale once the solver has updated the
+                # iterate in place)
+                self.h = self.h * o.IdentityOperator(self.X)
         # harness models + precondition filters
         self.prob = kkt.Problem(self.X, cfg['f'], [cfg['g%d' % i]
                                                     for i in range(len(self.Ls))],
@@ -460,6 +471,8 @@ class Saddle(object):
     def run(self, x, niter, callback=None, state=None, default_steps=False):
         S = odl().solvers
         s = self.solver
+        if self.cfg.get('h_comp') and self.h is not None:
+            self.h(x)       # a user printing the objective at the start
         if s == 'pdhg':
             kw = {}
             if state is not None:
